@@ -27,8 +27,47 @@ def gen(rnd, tier):
     return cases
 
 
+def program_family(res, tier, rnd):
+    """whole Programs: quitting right after the last update at fps 1 / 60 / 120, and with the terminal released by the
+    application: the last frame painted when Run returns is the final model's view"""
+    from .. import program as P
+    from .. import common as C
+    okb, out = C.build_harness()
+    if not okb:
+        raise C.Fail("harness build failed:\n" + out[-2000:])
+    scs, metas = [], []
+    for fps in (1, 60, 120):
+        for n in (1, 3, 12):
+            for variant in ("plain", "released", "alt-roundtrip"):
+                script = [P.W("started")]
+                if variant == "released":
+                    script += [P.W("idle"), P.DO("release-terminal")]
+                if variant == "alt-roundtrip":
+                    script += [P.W("idle"), P.DO("send", msg=P.B("enteralt")), P.DO("send", msg=P.U(90)), P.DO("sleep", us=30000), P.DO("send", msg=P.B("exitalt"))]
+                script += [P.DO("send", msg=P.U(k)) for k in range(n)] + [P.DO("quit"), P.W("returned")]
+                scs.append(P.scenario(len(scs), script, opts={"fps": fps}, parallel_ok=True, watchdog_ms=4000))
+                metas.append({"fps": fps, "updates": n, "variant": variant})
+    results, _ = P.run_scenarios("C07_prog", scs, timeout=600)
+    bad = []
+    import re as _re
+    for m, r in zip(metas, results):
+        if P.machinery_problem(r) or not r["run_returned"] or r["run_err"] != "nil":
+            bad.append((m, "scenario did not complete: %s" % P.summarize(r)["run_err"]))
+            continue
+        out_b = bytes(r["output"])
+        views = _re.findall(rb"view (\d+)", out_b)
+        if not views or int(views[-1]) != r["final_ver"]:
+            bad.append((m, "Run returned model %d; the last frame painted is %s" % (r["final_ver"], views[-1:] or None)))
+    res.oblige("Spec on real Programs: when Run returns after a quit the last frame painted is the final model's view (fps 1/60/120, quit right after the last update, terminal released by the application, alt-screen round trip; %d programs)" % len(scs),
+               not bad, bad[:2])
+    for m, what in bad[:1]:
+        res.violation("C07:program-final-view:%s" % m["variant"], what, {"scenario_meta": m})
+    res.coverage["program_family"] = len(scs)
+
+
 def run(res, tier, seed):
     rnd = random.Random(seed * 2003 + 7)
+    program_family(res, tier, rnd)
     return R.run_family(res, "C07", PROPS, gen(rnd, tier),
                         rule="histories of writes/flushes in any interleaving (the ticker's timing is the position of Flush) ending in Write v_f; Stop; 0..5 coalesced intermediate views; final views ending in a newline, shrinking, empty; oracle = Spec.shows_final_inline on the real tokens; distinct = distinct (ops, initial rows)")
 
